@@ -3,7 +3,7 @@
    cert.Authority.Verify* / Create* and crypto.Base.Verify / BatchVerify / Combine on them and emits
    one case per call; the kernel recomputes the verdict (and the high QC / assembled certificate)
    from the model. *)
-From HS Require Import Base.Prelude Crypto.Symbolic Crypto.SchemeModel Cert.CertModel.
+From HS Require Import Base.Prelude Crypto.Symbolic Crypto.SchemeModel Cert.CertModel Cert.CertPopModel.
 
 (* compact constructors used in the emitted terms *)
 Definition sg (i : rid) (m : msg) : sig1 := mkSig i (Some (i, m)).          (* genuine, correctly labelled *)
@@ -134,3 +134,47 @@ Definition sc_case := (scheme * list qsig * option qsig)%type.
 Definition check_sc (x : sc_case) : bool :=
   let '(sch, sigs, o) := x in option_eqb qsig_eqb (scheme_combine sch sigs) o.
 Definition sc_mismatches := mismatches_with check_sc.
+
+(* ---- proof-of-possession aware streams (worlds in which a member's registered proof is bad) and
+   VerifyAnyQC with QuorumCert.Equals at its real granularity ---- *)
+Definition sd_of (l : list (qcdigest * N)) : qcdigest -> N :=
+  fun d => match lookupN d l with Some s => s | None => 0%N end.
+
+Definition qcp_case := (cfg * vctx * list (hash * (hash * view)) * qc * obs)%type.
+Definition check_qcp (y : qcp_case) : bool :=
+  let '(c, x, st, q, o) := y in verdict_ok (verify_qc_p c x (store_of st) q) o.
+Definition qcp_mismatches := mismatches_with check_qcp.
+
+Definition tcp_case := (cfg * vctx * tc * obs)%type.
+Definition check_tcp (y : tcp_case) : bool :=
+  let '(c, x, t, o) := y in verdict_ok (verify_tc_p c x t) o.
+Definition tcp_mismatches := mismatches_with check_tcp.
+
+Definition aggp_case := (cfg * vctx * list (hash * (hash * view)) * aggqc * obs * (qcdigest * view))%type.
+Definition check_aggp (y : aggp_case) : bool :=
+  let '(c, x, st, a, o, (d, hv)) := y in
+  let m := verify_aggqc_p c x (store_of st) a in
+  verdict_ok m o &&
+  match m, o with
+  | Ok h, OOk => N.eqb (qc_view h) hv &&
+                 admissible_highb_p c x (store_of st) (aggqc_pool (map_of (aq_qcs a))) d hv
+  | _, _ => true
+  end.
+Definition aggp_mismatches := mismatches_with check_aggp.
+
+Definition anyp_case := (cfg * vctx * list (hash * (hash * view)) * list (qcdigest * N) * qc * option aggqc * obs)%type.
+Definition check_anyp (y : anyp_case) : bool :=
+  let '(c, x, st, sdl, bq, ag, o) := y in
+  let s := store_of st in
+  let sd := sd_of sdl in
+  match (if c_aggqc c then ag else None) with
+  | Some a =>
+      match verify_aggqc_p c x s a with
+      | Ok h => existsb (fun q => N.eqb (qc_view q) (qc_view h) && qc_valid_p c x s q &&
+                                  verdict_ok (verify_any_qc_p c x s sd bq ag (fun _ => Ok q)) o)
+                        (aggqc_pool (map_of (aq_qcs a)))
+      | r => verdict_ok (verify_any_qc_p c x s sd bq ag (fun _ => r)) o
+      end
+  | None => verdict_ok (verify_any_qc_p c x s sd bq ag (fun r => r)) o
+  end.
+Definition anyp_mismatches := mismatches_with check_anyp.
